@@ -155,6 +155,22 @@ def router_captures(tier):
     return n_paths, out
 
 
+def _samples(tier, caps):
+    """a few of the cases this run evaluated, re-evaluated here with their outcome"""
+    import itertools as _it
+    out = []
+    for root, idx in ((ROOTS[0], 7), (ROOTS[3], 4001), (ROOTS[5], 90001)):
+        name = next(_it.islice(_it.chain(root_relative_names(root), names(tier)), idx, None))
+        bad, cls = verdict(root, name, _FN)
+        out.append({"root": root, "name": name, "outcome": cls if bad is None else bad[1]})
+    for p, c in caps:
+        if p.startswith("//") and c:
+            bad, cls = verdict(ROOTS[0], c, _FN)
+            out.append({"url": p, "router_capture": c, "root": ROOTS[0], "outcome": cls if bad is None else bad[1]})
+            break
+    return out
+
+
 def run(tier, seed):
     rep = core.Report()
     nparts = 4
@@ -222,8 +238,7 @@ def run(tier, seed):
         "router_captures": len(caps),
         "router_distinct_captures": len(cap_names),
         "exhaustive": True,
-        "samples": [{"root": ROOTS[0], "name": "//a/../b c"}, {"root": ROOTS[3], "name": "C:\\..\\a"},
-                    {"url": "//etc/passwd", "capture": [c for p, c in caps if p == "//etc/passwd"][:1]}],
+        "samples": _samples(tier, caps),
     }
     rep.assumptions = ["POSIX os.path semantics (the sandbox platform); the oracle only inspects the returned string",
                        "router captures limited to URL paths of <=%d segments over the listed alphabet" % (3 if tier == "quick" else 4)]
